@@ -385,3 +385,35 @@ def python_arithmetic(prog: Program, rep, RID: str, funcs, why: str) -> int:
                 n += 1
                 rep.ok(RID, f"{f.qualname}:python-numbers", f"`{norm(node)}` takes part in arithmetic as a Python number", f.loc(node))
     return n
+
+
+def no_memoised_functions_of_caller_objects(prog: Program, rep, RID: str, modules) -> int:
+    """A module-level function that takes the caller's graph (a mutable object hashed by identity) must not be memoised: functools.lru_cache /
+    cache keys the answer by the graph *object*, so the verdict given for a graph is repeated after the graph was edited in place - a validator
+    then accepts a flow that no longer conserves (or keeps rejecting a repaired one).  Methods of the frozen source-sink graphs are not meant
+    (their receiver does not change after construction; C17.R3)."""
+    n = 0
+    MEMO = ("lru_cache", "cache", "functools.lru_cache", "functools.cache", "cached", "memoize", "memoized")
+    for f in prog.all_functions():
+        if f.module.name not in modules or f.cls is not None:
+            continue
+        if not isinstance(f.node, (ast.FunctionDef, ast.AsyncFunctionDef)):
+            continue
+        n += 1
+        decos = []
+        for d in f.node.decorator_list:
+            t = dotted(d.func) if isinstance(d, ast.Call) else dotted(d)
+            decos.append(t or norm(d))
+        memo = [t for t in decos if t in MEMO or t.split(".")[-1] in ("lru_cache", "cache")]
+        key = f"{f.qualname}:not-memoised"
+        if memo and f.node.args.args:
+            rep.violation(RID, key, f"`{f.qualname}` is memoised (`@{memo[0]}`) although it takes the caller's objects ({', '.join(a.arg for a in f.node.args.args)}): a graph "
+                          "hashes by identity, so the answer computed for a graph is repeated after the graph was edited in place - a flow that conserved on first use and was "
+                          "then broken is no longer rejected (and is 'solved' through the greedy route), a repaired one keeps raising ValueError", f.loc())
+        elif decos and not memo and not all(t in ("staticmethod", "classmethod", "property", "overload", "typing.overload") for t in decos):
+            raise AnalysisError(f"{f.qualname}: unknown decorator(s) {decos}")
+        else:
+            rep.ok(RID, key, "evaluated on every call", f.loc())
+    if n == 0:
+        raise AnalysisError(f"no module-level function found in {modules}")
+    return n
